@@ -21,7 +21,7 @@ LEVEL_NOTE = (
 )
 TECHNIQUE = "property-based testing with harness-owned thread schedules (deterministic scheduler, opcode-level preemption) + event-log invariant"
 RULE = (
-    "Hypothesis draws an acyclic plan spec (argument/keyword/plain edges, parallel edges, literals with "
+    "Hypothesis draws an acyclic plan spec (argument/keyword/plain edges, parallel edges, literal chains and the calls -> literal -> literal -> calls barrier idiom, outputs with and without the literals, literals with "
     "dependencies, unpack/gather nodes), max_workers 1..nodes+3, scheduler default/random (and 'cheap' when "
     "run_function_on_graph is driven directly), and a schedule (seeded random preemption, PCT priorities, "
     "run-length list, or real threads). Oracle: at every start(n) in the event log every transitive "
